@@ -227,7 +227,7 @@ def kind(op):
     if k in ("postponed", "batch"):
         return f"{k}[{' '.join(kind(o) for o in op[1])}]"
     if k == "calc":
-        return "calc(%s,%s)" % (" ".join(s[0] for s in op[1]), "commit" if op[2] else "discard")
+        return "calc(%s)" % ("commit" if op[2] else "discard")
     if k == "opt":
         return "optimise"
     raise ValueError(op)
@@ -895,8 +895,8 @@ def contract_calculator(case):
             steps = trial
         else:
             i += 1
-    setup = " ".join(kind(o) for o in case["setup"]) or "default"
-    key = f"calculator/{case['cfg'][0]}/{case['mode']}/{label}/{'>'.join(x[0] for x in steps)}/setup[{setup}]"
+    setup = "mixed-settings" if case["setup"] else "default-settings"
+    key = f"calculator/{case['cfg'][0]}/{case['mode']}/{label}/{'>'.join(x[0] for x in steps)}/{setup}"
     return ("fail", key, f"{json.dumps(case)}: {res[1]} | shrunk steps: {json.dumps(steps)}")
 
 
